@@ -15,6 +15,7 @@ Keys are lower-case hex, the empty key is `-`; a pair is `<hexkey>:<value>`.
   swalk <first|last|seek:<key>> <script of N / P, or ->   (cursor walk: Valid/Key/Value at the start and
                                                             after every Next / Prev of the script)
   bv <bits> ...               bvbits | bvranklut | bvsellut | rank <i> | select <k> | dist <i>
+  sellut | sel64 <16 hex digits> <k>     (bits.go: the select-in-byte table, select64 of one word)
   bucket <blockSize> | <pair> ... | <pair> ...
   reload | bytes | msize      (byte layout model: marshal / unmarshal round trip, the bytes, MarshalSize)
   umal <hexbytes> | umalt <m> | umalf <pos> <byte>   (UnmarshalBinary of raw bytes / of the first m bytes of the
@@ -30,6 +31,7 @@ import LinVerif.Model.LoudsIter
 import LinVerif.Model.TrieBucket
 import LinVerif.Model.TrieWire
 import LinVerif.Model.TrieReuse
+import LinVerif.Model.C20Words
 import LinVerif.Generated.C20
 
 namespace LinVerif.Driver.C20
@@ -341,7 +343,8 @@ def step (st : St) (ws : List String) : St × String :=
     match i.toNat? with
     | some pos =>
       if pos < st.bv.length then
-        (st, toString (rankGo (rankLut st.bv) st.bv pos))
+        -- over the words (popcountBlock); `louds_rankWords_eq_rank`
+        (st, toString (C20Words.rankWords (rankLut st.bv) (C20Words.toWords st.bv 0) pos))
       else (st, "out-of-range")
     | none => (st, "bad-op")
   | ["select", i] =>
@@ -353,8 +356,22 @@ def step (st : St) (ws : List String) : St × String :=
     | none => (st, "bad-op")
   | ["dist", i] =>
     match i.toNat? with
-    | some pos => if pos < st.bv.length then (st, toString (distNext st.bv pos)) else (st, "out-of-range")
+    | some pos =>
+      -- over the words, statement by statement (`louds_distNextGo_eq_distNext`)
+      if pos < st.bv.length then (st, toString (C20Words.distNextGo st.bv.length (C20Words.toWords st.bv 0) pos))
+      else (st, "out-of-range")
     | none => (st, "bad-op")
+  | ["sellut"] => (st, showNats (C20Words.selectInByteLut.flatMap id))
+  | ["sel64", x, k] =>
+    -- select64(x, k): x = 16 hex digits, most significant first; k one-based
+    match parseHexChars x.toList, k.toNat? with
+    | some bytes, some k =>
+      if bytes.length ≠ 8 then (st, "bad-op") else
+      let le := bytes.reverse
+      if 1 ≤ k ∧ k ≤ popcount (le.flatMap C20Words.byteBits) then
+        (st, toString (C20Words.select64Bytes le (k - 1)))
+      else (st, "out-of-range")
+    | _, _ => (st, "bad-op")
   | "bucket" :: bsz :: rest =>
     match bsz.toNat?, (splitBar rest).mapM (fun g => g.mapM parsePair) with
     | some blockSize, some groups =>
